@@ -29,6 +29,13 @@ def apply_edits(root, m):
         p = os.path.join(root, e["file"])
         s = open(p).read()
         saved.setdefault(p, s)
+        if e.get("regex"):
+            import re
+            s, cnt = re.subn(e["old"], e["new"], s)
+            if cnt == 0 or ("count" in e and cnt != e["count"]):
+                raise RuntimeError("%s: regex matched %d times in %s: %r" % (m["id"], cnt, e["file"], e["old"][:60]))
+            open(p, "w").write(s)
+            continue
         cnt = s.count(e["old"])
         want = e.get("count", 1)
         if cnt != want:
